@@ -39,7 +39,10 @@ type c18Case struct {
 	Bystander bool `json:"bystander,omitempty"`
 	// Under selects the underlying io.WriterAt: "" = the scripted writer, "stacked" = another
 	// SectionWriter (offset 2, length 100) over it, "file" = an *os.File
-	Under string  `json:"underlying,omitempty"`
+	Under string `json:"underlying,omitempty"`
+	// Blind: the cursor is NOT read back (Seek(0, SeekCurrent)) between the steps, only once at
+	// the end - observing it must not be what keeps the writer correct
+	Blind bool    `json:"blind,omitempty"`
 	Ops   []c18Op `json:"ops"`
 }
 
@@ -48,7 +51,7 @@ func init() {
 		ID:    "C18",
 		Level: "model_checking",
 		Rule: "E2+E3: for every section (base in {0,5,2^40}, n in 0..4, thorough 0..7) a breadth-first search over the cursor states reachable inside the window [0, n+6] (observed through Seek(0, SeekCurrent)); from EVERY state EVERY operation of the alphabet {Write(len 0..6), WriteAt(len 0..6, off in [-1,n+1]), Seek(offset in [-7,n+2], whence in {-1,0,1,2,3})} × EVERY answer of the scripted underlying WriterAt {everything; k<len bytes with an error; k<len bytes without an error, k in {0,1,2}} is executed on a real SectionWriter positioned there by real calls. " +
-			"Independently every operation sequence of depth ≤3 (thorough ≤4) over a reduced alphabet runs on one object without any state merging (guards against hidden state) - alone and once more with a second SectionWriter over another underlying writer used between the steps (objects must not share state), once more over a SectionWriter stacked on the scripted writer and (fault-free sequences of ≤2 operations) over an *os.File whose content is read back -, and AtToWriter(w, off in {0,5}) runs every sequence of ≤3 Writes × answers. Oracle: the statement's cursor model — compared are return values (count, error class: nil / ErrShortWrite / the underlying error / some error for rejected Seeks), the exact list of non-empty (offset, bytes) calls the underlying writer received, containment in [base, base+n), the cursor afterwards and Size(). Non-trivial: transitions in which bytes reach the underlying writer or the cursor moves.",
+			"Independently every operation sequence of depth ≤3 (thorough ≤4) over a reduced alphabet runs on one object without any state merging (guards against hidden state) - alone and once more with a second SectionWriter over another underlying writer used between the steps (objects must not share state), once more WITHOUT reading the cursor back between the steps (observing it must not be what keeps the writer correct), once more over a SectionWriter stacked on the scripted writer and (fault-free sequences of ≤2 operations) over an *os.File whose content is read back -, and AtToWriter(w, off in {0,5}) runs every sequence of ≤3 Writes × answers. Oracle: the statement's cursor model — compared are return values (count, error class: nil / ErrShortWrite / the underlying error / some error for rejected Seeks), the exact list of non-empty (offset, bytes) calls the underlying writer received, containment in [base, base+n), the cursor afterwards and Size(). Non-trivial: transitions in which bytes reach the underlying writer or the cursor moves.",
 		Assumptions: []string{
 			"cursors beyond the window n+6 are executed once (as successors) but not expanded",
 			"zero-length writes: whether the underlying writer is called at all is not fixed by the statement, so empty calls are ignored in the comparison and only the benign answer is scripted for them",
@@ -273,7 +276,7 @@ func c18Exec(cs c18Case) (got, want string, moved bool) {
 		}
 		got += fmt.Sprintf("%s=%s;", op.Op, gv)
 		want += fmt.Sprintf("%s=%s;", op.Op, wv)
-		if sw != nil {
+		if sw != nil && (!cs.Blind || i == len(cs.Ops)-1) {
 			// observe the cursor through the public API
 			pos, err := sw.Seek(0, io.SeekCurrent)
 			got += fmt.Sprintf("cursor:%d,%s;size:%d;", pos, errClass(err), sw.Size())
@@ -467,6 +470,15 @@ func c18Run(c *mc.Ctx) {
 				c.Fail(1<<51|int64(ci)<<40|seqs, "section", "section/bystander", cs, g2, want)
 			}
 			cs.Bystander = false
+			// blind: without reading the cursor back between the steps
+			if len(h) > 1 {
+				cs.Blind = true
+				if g5, w5, _ := c18Exec(cs); g5 != w5 {
+					c.Fail(1<<54|int64(ci)<<40|seqs, "section", "section/blind", cs, g5, w5)
+				}
+				cs.Blind = false
+				c.Add("blind_sequences", 1)
+			}
 			// other dynamic types of the underlying io.WriterAt
 			if cf.base < 50 {
 				cs.Under = "stacked"
